@@ -259,6 +259,9 @@ func newGen(s *rspec.Spec) *xgen.Generator {
 			for _, n := range names {
 				sp.Annotations["verif.cdi"] += n + ";"
 			}
+			// one call per adjustment with all its names: a real injector resolves them together (shared vendor
+			// edits once, all or nothing)
+			sp.Annotations["verif.cdi"] += "|"
 			return nil
 		}),
 	)
@@ -297,6 +300,9 @@ func pluginAdjAsSent(a *api.ContainerAdjustment) *api.ContainerAdjustment {
 func viewOfSpec(s *rspec.Spec) *CView {
 	v := newCView()
 	for k, x := range s.Annotations {
+		if k == "verif.cdi" {
+			x = strings.ReplaceAll(x, "|", "") // the harness injector's call separators are C13's business only
+		}
 		v.Ann[k] = x
 	}
 	if s.Process != nil {
@@ -733,6 +739,10 @@ func (mc *mergeChecker) checkC05(c *MCase, exp *Expect, obs *mObs, sample func()
 			if obs.Err == nil {
 				r.Violate("C05/self-update-accepted", "an update targeting the container being created did not fail the request", c)
 			}
+		} else if exp.FailPath != "create-adjust" && obs.Err == nil {
+			// a field of one target set by two plugins' updates (neither marked ignore-failure): the entry cannot
+			// carry "each field from its single owner"
+			r.Violate("C05/two-owners/"+itemKind(exp.FailItem), fmt.Sprintf("plugins at positions %d and %d both set %s through updates (%s), yet the %s request succeeded", exp.FailPlugin[0], exp.FailPlugin[1], exp.FailItem, exp.FailPath, c.Kind), c)
 		}
 		return
 	}
@@ -904,7 +914,11 @@ func runMergeChild(which string, c *ev.ChildEnv, res *ev.Result) {
 			if s.N != n {
 				continue
 			}
-			if which != "C01" && (s.Pattern == "plain" || s.Pattern == "collision-after-ignored-drop" || s.Pattern == "decoy-removal-then-set" || s.Pattern == "same-value" || s.Pattern == "orig-value-then-other" || s.Pattern == "collision-after-ignored-drop-same-response") {
+			if which == "C05" && s.Pattern == "plain" && s.Path != "create-adjust" {
+				cases = append(cases, g.genSystematic(id(len(cases)), s))
+				continue
+			}
+			if which != "C01" && (s.Pattern == "plain" || s.Pattern == "collision-after-ignored-drop" || s.Pattern == "decoy-removal-then-set" || s.Pattern == "same-value" || s.Pattern == "orig-value-then-other" || s.Pattern == "collision-after-ignored-drop-same-response" || s.Pattern == "reset-then-collide") {
 				continue // the must-fail half belongs to C01
 			}
 			if which == "C03" && s.Path != "create-adjust" {
